@@ -42,6 +42,7 @@ class Ctx:
         self.expected_preds: Dict[str, List[str]] = {}
         self.point_hooks: Dict[str, List[Callable[..., None]]] = {}
         self.kill_tag = threading.local()
+        self.current_root: Optional[str] = None     # scratch location of the scenario that is running now
 
     def jitter(self, point: str, comp: Optional[str] = None):
         if not self.active:
@@ -62,6 +63,29 @@ class Ctx:
 
 CTX = Ctx()
 _hooks_installed = False
+
+
+def _cur(obj) -> bool:
+    """True when `obj` (ComponentState / Engine / Controller / Job) belongs to the scenario that is running NOW.
+    Engines and controllers of earlier scenarios in the same process keep living for a while (delayed launches,
+    asynchronous shutdown); their events must not leak into the current history."""
+    root = CTX.current_root
+    if root is None:
+        return True
+    try:
+        if hasattr(obj, "specification"):          # ComponentState
+            path = obj.specification.workingDirectory.path
+        elif hasattr(obj, "job"):                  # Engine
+            path = obj.job.workingDirectory.path
+        elif hasattr(obj, "experiment"):           # Controller
+            path = obj.experiment.instanceDirectory.location
+        elif hasattr(obj, "workingDirectory"):     # Job
+            path = obj.workingDirectory.path
+        else:
+            return True
+        return os.path.realpath(path).startswith(os.path.realpath(root))
+    except Exception:
+        return True
 
 
 def _ref_of(component) -> str:
@@ -123,6 +147,8 @@ def install_hooks():
     o_run = CS.run
 
     def cs_run(self):
+        if not _cur(self):
+            return o_run(self)
         ref = _ref_of(self)
         REC.record("cs.run", ref, sampler=lambda: sample_predecessors(ref), state=self.state)
         return o_run(self)
@@ -131,6 +157,8 @@ def install_hooks():
     o_stagein = CS.stageIn
 
     def cs_stagein(self, *a, **kw):
+        if not _cur(self):
+            return o_stagein(self, *a, **kw)
         ref = _ref_of(self)
         REC.record("cs.stageIn", ref)
         return o_stagein(self, *a, **kw)
@@ -139,6 +167,8 @@ def install_hooks():
     o_finish = CS.finish
 
     def cs_finish(self, finalState):
+        if not _cur(self):
+            return o_finish(self, finalState)
         ref = _ref_of(self)
         REC.record("cs.finish", ref, final=finalState, state_before=self.state)
         CTX.jitter("cs.finish", ref)
@@ -153,6 +183,8 @@ def install_hooks():
     o_restart = CS.restart
 
     def cs_restart(self, reason=None, code=None):
+        if not _cur(self):
+            return o_restart(self, reason=reason, code=code)
         ref = _ref_of(self)
         REC.record("cs.restart.enter", ref, reason=reason)
         try:
@@ -167,6 +199,8 @@ def install_hooks():
     o_fc = C.finishedCheck
 
     def c_finished(self, state, component):
+        if not _cur(self):
+            return o_fc(self, state, component)
         ref = _ref_of(component)
         CTX.jitter("finishedCheck.before", ref)
         REC.record("finishedCheck.enter", ref, state=component.state)
@@ -180,6 +214,8 @@ def install_hooks():
     o_pm = C.postMortemCheck
 
     def c_postmortem(self, state, component):
+        if not _cur(self):
+            return o_pm(self, state, component)
         ref = _ref_of(component)
         CTX.jitter("postMortem.before", ref)
         REC.record("postMortem.enter", ref, reason=_safe(lambda: component.engine.exitReason()))
@@ -193,6 +229,8 @@ def install_hooks():
     o_sched = C._schedule
 
     def c_schedule(self, migrated_components):
+        if not _cur(self):
+            return o_sched(self, migrated_components)
         CTX.jitter("schedule.before")
         REC.record("schedule.enter", None)
         try:
@@ -204,6 +242,8 @@ def install_hooks():
     o_rc = C._restartComponent
 
     def c_restart_component(self, component, exitReason=None, returncode=None):
+        if not _cur(self):
+            return o_rc(self, component, exitReason=exitReason, returncode=returncode)
         ref = _ref_of(component)
         REC.record("restartComponent.enter", ref, reason=exitReason or _safe(lambda: component.engine.exitReason()))
         rc = o_rc(self, component, exitReason=exitReason, returncode=returncode)
@@ -214,6 +254,8 @@ def install_hooks():
     o_ff = C._fake_finish_with_state
 
     def c_fake_finish(self, component, new_state):
+        if not _cur(self):
+            return o_ff(self, component, new_state)
         REC.record("fakeFinish", _ref_of(component), final=new_state)
         return o_ff(self, component, new_state)
     C._fake_finish_with_state = c_fake_finish
@@ -224,6 +266,8 @@ def install_hooks():
     o_er = E.restart
 
     def e_restart(self, reason=None, code=None):
+        if not _cur(self):
+            return o_er(self, reason=reason, code=code)
         ref = self.job.reference
         REC.record("engine.restart.enter", ref, reason=reason, restarts=self.restarts,
                    resub=self._resubmissionAttempts)
@@ -235,6 +279,8 @@ def install_hooks():
     o_rer = RE.restart
 
     def re_restart(self, reason=None, code=None):
+        if not _cur(self):
+            return o_rer(self, reason=reason, code=code)
         ref = self.job.reference
         REC.record("engine.restart.enter", ref, reason=reason, restarts=self.restarts, repeating=True)
         rc = o_rer(self, reason=reason, code=code)
@@ -245,6 +291,8 @@ def install_hooks():
     o_ek = E.kill
 
     def e_kill(self):
+        if not _cur(self):
+            return o_ek(self)
         REC.record("engine.kill", self.job.reference, alive=self.isAlive(),
                    tag=getattr(CTX.kill_tag, "tag", "internal"))
         return o_ek(self)
@@ -253,6 +301,8 @@ def install_hooks():
     o_rek = RE.kill
 
     def re_kill(self):
+        if not _cur(self):
+            return o_rek(self)
         REC.record("engine.kill", self.job.reference, alive=self.isAlive(), repeating=True,
                    already=self.cancelMonitorEvent.is_set(), tag=getattr(CTX.kill_tag, "tag", "internal"))
         return o_rek(self)
@@ -261,6 +311,8 @@ def install_hooks():
     o_napf = RE.notify_all_producers_finished
 
     def re_notify(self):
+        if not _cur(self):
+            return o_napf(self)
         CTX.jitter("notify.before", self.job.reference)
         REC.record("notify_all_producers_finished", self.job.reference)
         return o_napf(self)
@@ -272,8 +324,11 @@ def install_hooks():
         label = name or getattr(action, "__name__", "monitor")
         ref = label.split(" ")[0]
         counter = {"n": 0}
+        root_at_creation = CTX.current_root
 
         def wrapped(last):
+            if root_at_creation != CTX.current_root:
+                return action(last)
             counter["n"] += 1
             n = counter["n"]
             REC.record("kernel.enter", ref, n=n, last=bool(last))
@@ -350,8 +405,11 @@ def run_scenario(flowir: str, script: Dict[str, Any], location: str, perturb_see
                  on_controller: Optional[Callable[[Any], None]] = None,
                  max_launches: Optional[int] = None) -> Dict[str, Any]:
     """Runs all stages like scripts/elaunch.py:Run and returns the observed outcome + events."""
+    CTX.current_root = location
+    BACKEND.current_root = location
     REC.reset()
     BACKEND.reset(script)
+    BACKEND.current_root = location
     BACKEND.launch_sampler = sample_predecessors
     res: Dict[str, Any] = {"stages": [], "build_error": None}
     try:
